@@ -15,13 +15,14 @@ from hypothesis import strategies as st
 from vlib import gen, ring
 from vlib.c12_regions import (
     RegionMap, bio_to_loc, build_record, genbank_text, ordered_bases, parse_location_text)
-from vlib.runner import Violation
+from vlib.runner import Violation, canonical
 
 PROPERTY_ID = "C12"
 LEVEL = "exploration"
 RULE = ("Records (240..2400 bases, linear and circular) are laid out by construction: 1-4 disjoint groups of "
         "areas (gaps of 0 = touching, or larger; first/last group touching position 0 / the record end; on "
-        "circular records rotated so that a group spans the origin), each group holding 0-3 protoclusters "
+        "circular records rotated so that a group spans the origin; 1 case in 6 is a small contig whose single "
+        "group covers the whole record, mostly linear), each group holding 0-3 protoclusters "
         "(core inside the neighbourhood, one optionally sideloaded) and 0-2 subregions with boundary-biased "
         "coordinates; genes from the shared gene layout (both strands, multi-exon, origin-spanning) plus genes "
         "anchored at area boundaries; PFAM/aSDomain/CDS_motif annotations on any gene, prepeptides (leader/"
@@ -38,6 +39,8 @@ ASSUMPTIONS = [
     "(position - region start) mod record length",
     "the loader numbers areas by position (record.py add_* use bisect on (start, -length)); the numbers in a region "
     "file must follow that order, pairs with equal (start, length) are left unjudged (C10's tie question)",
+    "'the full record' is the SeqRecord handed to the writer (or Record.to_biopython()): its GenBank text plus all "
+    "annotations, ids, dbxrefs, letter annotations and the feature count, compared before and after each write",
     "the region feature's own region_number and the 'Orig. start/end' comment are not asserted (not in the statement)",
     "prepeptides are generated only on genes that do not span the origin (C09's open finding would dominate) and "
     "that lie inside an area (the RiPP modules only analyse genes inside protoclusters)",
@@ -170,6 +173,32 @@ class Parent:
                 self.cand_identity_by_number[int(feat.first("candidate_cluster_number"))] = feat
             elif feat.type == "subregion":
                 self.sub_label_by_number[int(feat.first("subregion_number"))] = feat.first("label")
+
+
+def record_state(bio_record: Any) -> dict:
+    """ everything a SeqRecord holds: its GenBank text plus the attributes the GenBank writer may skip or
+        reformat (all annotations incl. comments and structured comments, ids, dbxrefs, letter annotations) """
+    return {"text": genbank_text(bio_record),
+            "annotations": {str(key): canonical(value) for key, value in bio_record.annotations.items()},
+            "attributes": canonical([bio_record.id, bio_record.name, bio_record.description,
+                                     list(bio_record.dbxrefs), sorted(bio_record.letter_annotations),
+                                     len(bio_record.features)])}
+
+
+def state_changes(before: dict, after: dict) -> list:
+    """ what differs between two states of the same SeqRecord; [] if nothing """
+    if before == after:
+        return []
+    changes: list = []
+    for key in sorted(set(before["annotations"]) | set(after["annotations"])):
+        if before["annotations"].get(key) != after["annotations"].get(key):
+            changes.append({"what": "annotation", "key": key, "before": (before["annotations"].get(key) or "")[:300],
+                            "after": (after["annotations"].get(key) or "")[:300]})
+    if before["attributes"] != after["attributes"]:
+        changes.append({"what": "attributes", "before": before["attributes"], "after": after["attributes"]})
+    if before["text"] != after["text"]:
+        changes.extend(feature_changes(before["text"], after["text"]))
+    return changes
 
 
 def feature_changes(before: str, after: str) -> list:
@@ -624,7 +653,8 @@ def check_region_files(spec: dict, sub: str = "files", beyond_known: bool = Fals
         # what antismash.main.add_antismash_comments puts on the records before the region files are written
         record.annotations["structured_comment"] = {"antiSMASH-Data": {"Version": "8.dev",
                                                                          "Run date": "2000-01-01 00:00:00"}}
-    parent_text = genbank_text(record.to_biopython())
+    parent_state = record_state(record.to_biopython())
+    parent_text = parent_state["text"]
     parent = Parent(parent_text)
     violations: list = []
     classes = ["mode_shared" if shared_mode else "mode_fresh", "circular" if spec["circular"] else "linear",
@@ -634,7 +664,7 @@ def check_region_files(spec: dict, sub: str = "files", beyond_known: bool = Fals
     tmp = tempfile.mkdtemp(prefix="verif_c12_")
     try:
         shared = record.to_biopython() if shared_mode else None
-        shared_text = genbank_text(shared) if shared_mode else None
+        shared_state = record_state(shared) if shared_mode else None
         for index, region in enumerate(regions):
             loc = ring.from_bio(region.location)
             crosses = len(loc["parts"]) == 2
@@ -653,6 +683,9 @@ def check_region_files(spec: dict, sub: str = "files", beyond_known: bool = Fals
                 labels.append("region_touches_0")
             if not crosses and end == length:
                 labels.append("region_touches_end")
+            if not crosses and start == 0 and end == length:
+                labels.append("region_is_whole_linear_record" if not spec["circular"]
+                              else "region_is_whole_circular_record")
             if index >= 1:
                 labels.append("later_region")
                 if region.candidate_clusters:
@@ -692,17 +725,17 @@ def check_region_files(spec: dict, sub: str = "files", beyond_known: bool = Fals
                 violations.append(("write_failed", detail))
                 if shared_mode:
                     shared = record.to_biopython()
-                    shared_text = genbank_text(shared)
+                    shared_state = record_state(shared)
                 continue
             path = os.path.join(tmp, created[0])
             if shared_mode:
-                after = genbank_text(shared)
-                if after != shared_text:
-                    detail = {"changes": feature_changes(shared_text, after)[:8]}
+                after = record_state(shared)
+                if after != shared_state:
+                    detail = {"changes": state_changes(shared_state, after)[:8]}
                     detail.update(info)
                     violations.append(("parent_changed_shared", detail))
                     shared = record.to_biopython()      # later regions are written from an undamaged record
-                    shared_text = genbank_text(shared)
+                    shared_state = record_state(shared)
             # --- the file
             with open(path, encoding="utf-8") as handle:
                 text = handle.read()
@@ -719,9 +752,9 @@ def check_region_files(spec: dict, sub: str = "files", beyond_known: bool = Fals
                 SeqIO.write([repaired_record(bio, judgement, parent, rmap)], fixed, "genbank")
                 violations.extend(judge_reload(fixed, want, rmap.size, judgement.ties, info, "_after_repair"))
                 os.unlink(fixed)
-        after_all = genbank_text(record.to_biopython())
-        if after_all != parent_text:
-            violations.append(("parent_changed", {"changes": feature_changes(parent_text, after_all)[:8]}))
+        after_all = record_state(record.to_biopython())
+        if after_all != parent_state:
+            violations.append(("parent_changed", {"changes": state_changes(parent_state, after_all)[:8]}))
     finally:
         shutil.rmtree(tmp, ignore_errors=True)
 
@@ -839,6 +872,9 @@ def _arc_loc(start: int, size: int, length: int, strand: int = 1) -> dict:
 @st.composite
 def record_specs(draw) -> dict:
     circular = draw(st.sampled_from([True, True, False]))
+    whole_record = draw(st.integers(0, 5)) == 0
+    if whole_record:
+        circular = draw(st.sampled_from([False, False, True]))
     length = draw(st.sampled_from([240, 600, 900, 1500, 2400]))
     ngroups = draw(st.sampled_from([1, 2, 2, 3, 3, 4]))
     # 2n+1 sizes: gap, width, gap, ..., gap; every width >= 12
@@ -852,13 +888,16 @@ def record_specs(draw) -> dict:
     trail_zero = draw(st.booleans())
     if trail_zero and not circular:
         lead = slack
+    if whole_record:
+        # a small contig whose areas reach both of its ends: one group as long as the record, one area covering it
+        ngroups, widths, inner_gaps, lead = 1, [length], [], 0
     rotation = 0
     offsets = []
     pos = lead
     for index, width in enumerate(widths):
         offsets.append(pos)
         pos += width + (inner_gaps[index] if index < ngroups - 1 else 0)
-    if circular and draw(st.integers(0, 2)) > 0:
+    if circular and not whole_record and draw(st.integers(0, 2)) > 0:
         # rotate so that one group spans the origin
         which = draw(st.integers(0, ngroups - 1))
         inside = draw(gen.coord(1, widths[which] - 1))
@@ -870,6 +909,8 @@ def record_specs(draw) -> dict:
         if nproto + nsub == 0:
             nproto = 1
         whole = draw(st.integers(0, nproto + nsub))     # this area covers the whole group (== nproto+nsub: none)
+        if whole_record:
+            whole = draw(st.integers(0, nproto + nsub - 1))
         for index in range(nproto + nsub):
             if index == whole:
                 a, b = 0, width
@@ -1014,12 +1055,19 @@ def family_cases():
     }
     positions = {"interior": (30, 300), "touch_0": (0, 300), "touch_end": (30, length - width),
                  "touching_groups": (30, 30 + width), "span": (100, 550), "span_one_before": (100, length - 1),
-                 "span_one_after": (100, length - width + 1)}
+                 "span_one_after": (100, length - width + 1), "whole_record": (0,)}
     for circular in (False, True):
         for pos_name, offsets in positions.items():
             if pos_name.startswith("span") and not circular:
                 continue
-            for names in itertools.product(patterns, repeat=2):
+            if pos_name == "whole_record":
+                # a contig exactly as long as one group: its region touches both record ends
+                combos = [(name,) for name in patterns]
+                length = width
+            else:
+                combos = list(itertools.product(patterns, repeat=2))
+                length = 600
+            for names in combos:
                 for mode in ("fresh", "shared"):
                     protos, subs, genes, annos = [], [], [], []
                     for offset, name in zip(offsets, names):
